@@ -9,18 +9,27 @@ open GoaktVerif.Model.C45
 
 /-- a freshly constructed flow / fused stage actor -/
 def FreshMid (nd : Node) : Prop :=
-  (∃ c st, nd = .flow c st {}) ∨ (∃ c fs, nd = .fused c fs {})
+  (∃ c st, nd = .flow c st {}) ∨ (∃ c fs, nd = .fused c fs {}) ∨ (∃ c n, nd = .batch c n {})
 
 theorem FreshMid.ok {nd : Node} (h : FreshMid nd) : middleOK nd = true ∧ MidInv nd [] [] ∧ nd.alive = true := by
-  rcases h with ⟨c, st, rfl⟩ | ⟨c, fs, rfl⟩
+  rcases h with ⟨c, st, rfl⟩ | ⟨c, fs, rfl⟩ | ⟨c, n, rfl⟩
   · exact ⟨rfl, FlowInv.init st, rfl⟩
   · exact ⟨rfl, FusedInv.init fs, rfl⟩
+  · exact ⟨rfl, BatchInv.init n, rfl⟩
 
-theorem freshMid_mkNode (st : Stage) (h : st.isFlow = true) : FreshMid (mkNode st) := by
-  cases st <;> simp [Stage.isFlow] at h <;> exact Or.inl ⟨_, _, rfl⟩
+/-- stages inside the composition theorem: flowActor-backed ones and Batch -/
+def Stage.covered : Stage → Bool
+  | .opmap _ _ _ _ | .pmap _ _ _ _ => false
+  | _ => true
 
-theorem freshMid_fuseRuns (stages acc : List Stage) (hs : ∀ st ∈ stages, st.isFlow = true)
-    (ha : ∀ st ∈ acc, st.isFlow = true) : ∀ nd ∈ fuseRuns stages acc, FreshMid nd := by
+theorem freshMid_mkNode (st : Stage) (h : Stage.covered st = true) : FreshMid (mkNode st) := by
+  cases st <;> simp [Stage.covered] at h
+  all_goals first
+    | exact Or.inl ⟨_, _, rfl⟩
+    | exact Or.inr (Or.inr ⟨_, _, rfl⟩)
+
+theorem freshMid_fuseRuns (stages acc : List Stage) (hs : ∀ st ∈ stages, Stage.covered st = true)
+    (ha : ∀ st ∈ acc, Stage.covered st = true) : ∀ nd ∈ fuseRuns stages acc, FreshMid nd := by
   induction stages generalizing acc with
   | nil =>
     intro nd hnd
@@ -28,10 +37,10 @@ theorem freshMid_fuseRuns (stages acc : List Stage) (hs : ∀ st ∈ stages, st.
     match acc, ha with
     | [], _ => simp at hnd
     | [a], ha => simp at hnd; subst hnd; exact freshMid_mkNode a (ha a (by simp))
-    | a :: b :: r, _ => simp at hnd; subst hnd; exact Or.inr ⟨_, _, rfl⟩
+    | a :: b :: r, _ => simp at hnd; subst hnd; exact Or.inr (Or.inl ⟨_, _, rfl⟩)
   | cons s rest ih =>
     intro nd hnd
-    have hs' : ∀ st ∈ rest, st.isFlow = true := fun st h => hs st (by simp [h])
+    have hs' : ∀ st ∈ rest, Stage.covered st = true := fun st h => hs st (by simp [h])
     simp only [fuseRuns] at hnd
     split at hnd
     · exact ih (s :: acc) hs' (fun st h => by
@@ -42,7 +51,7 @@ theorem freshMid_fuseRuns (stages acc : List Stage) (hs : ∀ st ∈ stages, st.
       · match acc, ha, h1 with
         | [], _, h1 => simp at h1
         | [a], ha, h1 => simp at h1; subst h1; exact freshMid_mkNode a (ha a (by simp))
-        | a :: b :: r, _, h1 => simp at h1; subst h1; exact Or.inr ⟨_, _, rfl⟩
+        | a :: b :: r, _, h1 => simp at h1; subst h1; exact Or.inr (Or.inl ⟨_, _, rfl⟩)
       · rcases List.mem_cons.mp h1 with rfl | h2
         · exact freshMid_mkNode s (hs s (by simp))
         · exact ih [] hs' (by simp) nd h2
@@ -132,7 +141,7 @@ theorem wire_step (nd : Node) (ha : nd.alive = true)
   | fused c fs s => exact ⟨rfl, ha⟩
   | src s => exact ⟨rfl, ha⟩
   | sink c s => exact ⟨rfl, ha⟩
-  | batch c n s => rcases hk with h | ⟨s', h⟩ | ⟨c', s', h⟩ <;> simp [middleOK] at h
+  | batch c n s => exact ⟨rfl, ha⟩
   | pmap o w k b e s => rcases hk with h | ⟨s', h⟩ | ⟨c', s', h⟩ <;> simp [middleOK] at h
 
 theorem MidInv.step_wire {nd : Node} {ins outs : List Down} (h : MidInv nd ins outs) (ha : nd.alive = true) :
@@ -148,7 +157,9 @@ theorem MidInv.step_wire {nd : Node} {ins outs : List Down} (h : MidInv nd ins o
     simp only [fusedStep, List.append_nil] at this
     exact this
   | src s => exact h.elim
-  | batch c n s => exact h.elim
+  | batch c n s =>
+    have ha' : s.alive = true := ha
+    simpa [Node.step, Node.alive, ha', batchStep] using h
   | pmap o w k b e s => exact h.elim
   | sink c s => exact h.elim
 
